@@ -340,13 +340,14 @@ var kindN = map[string]uint64{"fifo": 0, "stdin": 1, "unix": 2, "tcp": 3, "unixg
 func coqCase(id uint64, c *scase) string {
 	cs := make([]string, len(c.Writers))
 	for i, w := range c.Writers {
-		cs[i] = "(" + vlib.Bool(closedFor(c, i)) + ", " + tlib.Hs(vlib.UnQs(w.Chunks)) + ")"
+		cs[i] = vlib.App("W", vlib.Bool(closedFor(c, i)), tlib.HS(vlib.UnQs(w.Chunks)))
 	}
-	out := make([]string, len(c.Got))
+	tags := make([]int, len(c.Got))
+	lines := make([]string, len(c.Got))
 	for i, t := range c.Got {
-		out[i] = vlib.App("T", vlib.Nat(t.Tag), tlib.H(vlib.UnQ(t.Line)))
+		tags[i], lines[i] = t.Tag, vlib.UnQ(t.Line)
 	}
-	return vlib.App("CST", vlib.N(id), vlib.N(kindN[c.Kind]), vlib.List(cs), vlib.List(out), vlib.Bool(c.Ended))
+	return vlib.App("CST", vlib.N(id), vlib.N(kindN[c.Kind]), vlib.List(cs), tlib.TS(tags, lines), vlib.Bool(c.Ended))
 }
 
 // ---- generation ----
@@ -461,6 +462,14 @@ func main() {
 		perKind = 1000
 	}
 	n, stuck := 0, 0
+	race := a.Tier == "race"
+	if race {
+		// search aid: stream sockets cancelled within microseconds of the
+		// writers' connect, to hit the window between Accept and the handler
+		// registration (not a tier of the check: tools/vcheck C17 --tier race)
+		kinds = []string{"unix", "tcp"}
+		perKind = 4000
+	}
 	for round := 0; round < perKind; round++ {
 		for _, kind := range kinds {
 			c := &scase{Kind: kind}
@@ -471,7 +480,7 @@ func main() {
 			if round == 0 && !isDgram(kind) {
 				nw = 0 // a stream nobody ever writes to must still end when cancelled
 			}
-			c.CancelEarly = rng.Chance(20)
+			c.CancelEarly = rng.Chance(20) || race
 			delays := make([][]time.Duration, nw)
 			for i := 0; i < nw; i++ {
 				closes := rng.Chance(70)
@@ -496,6 +505,9 @@ func main() {
 				}
 			}
 			cancelAfter := time.Duration(rng.Intn(1500)) * time.Microsecond
+			if race {
+				cancelAfter = time.Duration(rng.Intn(40)) * time.Microsecond
+			}
 			vlib.WriteJSON(inflight, c)
 			problems := execute(dir, n, c, delays, cancelAfter)
 			n++
